@@ -170,6 +170,10 @@ class RecordPacker:
                 identifier, values = value
                 identifier = identifier_to_str(identifier)
                 desc = self.descriptors[identifier]
+                # the members are packed like plain records: strip extra (newer) reserved fields but keep the version
+                expected_len = len(desc.fields) + len(RESERVED_FIELDS)
+                if len(values) > expected_len:
+                    values = values[: expected_len - 1] + (values[-1],)
                 records.append(desc.recordType._unpack(*values))
             return GroupedRecord(name, records)
 
